@@ -230,6 +230,8 @@ class DeviceChannel:
         if self._func is not None:
             # reset func state if func attached
             self._func.reset()
+        # the call counter handed to func.get() starts again as well
+        self._cntr = 0
 
     def data_get(self) -> DDeviceChannelFuncData | None:
         """Generate channel data."""
